@@ -701,7 +701,7 @@ impl Engine for CacheEngine {
             }
             ["pgr", cap, ps, "|", rest @ ..] => {
                 let (Some(cap), Some(ps)) = (num(cap), num(ps)) else { return "bad-op".into() };
-                if ![4096, 8192, 16384, 32768, 65536].contains(&ps) || cap >= 65536 {
+                if ![4096, 8192, 16384, 32768, 65536].contains(&ps) || cap > 200_000 {
                     return "bad-op".into();
                 }
                 let ops: Option<Vec<POp>> = split_ops(rest).iter().map(|o| parse_pop(o)).collect();
